@@ -125,14 +125,23 @@ func SizeSinks(t map[ssa.Value]bool, paramSinks map[*ssa.Function]map[int]bool) 
 				}
 			case ssa.CallInstruction:
 				callee := x.Common().StaticCallee()
-				if callee == nil {
-					continue
+				ps, known := paramSinks[callee]
+				if BuiltinName(x) != "" {
+					continue // len/cap/append/copy of tainted ints do not occur; make is MakeSlice
 				}
-				ps := paramSinks[callee]
 				for i, a := range x.Common().Args {
-					if t[a] && ps[i] {
+					if !t[a] {
+						continue
+					}
+					// a callee outside the analysed set (stdlib such as slices.Grow, a dynamic
+					// call) is assumed to size memory by any integer it is given
+					if callee == nil || !known || ps[i] {
+						name := "dynamic"
+						if callee != nil {
+							name = callee.Name()
+						}
 						seen[r] = true
-						out = append(out, SizeSink{r, "call:" + callee.Name()})
+						out = append(out, SizeSink{r, "call:" + name})
 						break
 					}
 				}
